@@ -232,54 +232,88 @@ Theorem pre_cache_sufficient' : forall B (x y : pre_input),
   pre_key x = pre_key y -> pre_deps x = pre_deps y.
 Proof. exact (pre_cache_sufficient node_eqb node_eqb_sound). Qed.
 
+(* ------------------------------------------------------------------ 1-3, 7: the keys of 25aa9f6 *)
+
+(** on a [deep] / [shallow] tree, put back the signature the table assigns to each body hash *)
+Fixpoint fillsigd (T : N -> N) (x : node) : node :=
+  match x with
+  | NMod p args s => NMod p (map (fun a => (fillsigd T (fst a), snd a)) args) s
+  | NCall i _ x h o b s => NCall i (T h) x h o (fillsigd T b) s
+  | NRun ns => NRun (map (fillsigd T) ns)
+  | other => other
+  end.
+
+Lemma no_names_fill : forall T x, wf_sigd T x = true -> no_names x = fillsigd T (deep x).
+Proof.
+  intros T. induction x using node_ind'; intros W; cbn [no_names deep fillsigd wf_sigd] in *; try reflexivity.
+  - f_equal. rewrite map_map. apply map_ext_in. intros a Ha. cbn [fst snd].
+    rewrite Forall_forall in H. rewrite forallb_forall in W. rewrite (H a Ha (W a Ha)). reflexivity.
+  - apply andb_prop in W. destruct W as [W1 W2]. apply N.eqb_eq in W1. subst fs. rewrite (IHx W2). reflexivity.
+  - f_equal. rewrite map_map. apply map_ext_in. intros a Ha.
+    rewrite Forall_forall in H. rewrite forallb_forall in W. apply H; auto.
+Qed.
+
+(** the inverse caches' key determines everything the inversion reads EXCEPT the names (and
+    origins) of the function handles *)
+Theorem inv_cache_sufficient_modulo_names : forall T (x y : inv_input),
+  forallb (wf_sigd T) (fst x) = true -> forallb (wf_sigd T) (fst y) = true ->
+  inv_key x = inv_key y -> inv_deps_no_names x = inv_deps_no_names y.
+Proof.
+  intros T [x ex] [y ey] Wx Wy E. unfold inv_key, inv_deps_no_names in *. cbn [fst snd] in *.
+  injection E as E1 E2. subst ey. f_equal.
+  rewrite forallb_forall in Wx, Wy.
+  assert (R : forall l, (forall a, In a l -> wf_sigd T a = true) -> map no_names l = map (fillsigd T) (map deep l)).
+  { intros l W. rewrite map_map. apply map_ext_in. intros a Ha. apply no_names_fill. apply W; assumption. }
+  rewrite (R x Wx), (R y Wy), E1. reflexivity.
+Qed.
+
+Lemma zip_no_names_fill : forall T x, wf_sig T x = true -> no_bodies (no_names x) = fillsig T (shallow x).
+Proof.
+  intros T. induction x using node_ind'; intros W; cbn [no_bodies no_names shallow fillsig wf_sig] in *; try reflexivity.
+  - f_equal. rewrite !map_map. apply map_ext_in. intros a Ha. cbn [fst snd].
+    rewrite Forall_forall in H. rewrite forallb_forall in W. rewrite (H a Ha (W a Ha)). reflexivity.
+  - apply N.eqb_eq in W. subst fs. reflexivity.
+  - f_equal. rewrite !map_map. apply map_ext_in. intros a Ha.
+    rewrite Forall_forall in H. rewrite forallb_forall in W. apply H; auto.
+Qed.
+
+(** the fast-function cache's key ([hash_deep(None)]: the bodies are not walked) determines the
+    closure except for the handles' names: the closure does not contain the bodies, it
+    resolves the function index in the assembly that is current when it runs *)
+Theorem zip_cache_sufficient_modulo_names : forall T (x y : node),
+  wf_sig T x = true -> wf_sig T y = true ->
+  zip_key x = zip_key y -> zip_deps_no_names x = zip_deps_no_names y.
+Proof.
+  intros T x y Wx Wy E. unfold zip_key, zip_deps_no_names in *.
+  rewrite (zip_no_names_fill T x Wx), (zip_no_names_fill T y Wy), E. reflexivity.
+Qed.
+
 (* ------------------------------------------------------------------ witnesses *)
 
 (** codes used in the witnesses (any distinct numbers do) *)
 Definition DIP := 7. Definition JOIN := 11. Definition ROWS := 13. Definition REDUCE := 17.
 Definition REVERSE := 19. Definition FIRST := 23. Definition ADD := 29. Definition MUL := 31.
+Definition RISE := 37. Definition SELECT := 41.
 Definition S11 := 65537. Definition S21 := 65538.   (* signatures |1.1 and |2.1 *)
 
-(** the real pair (confirmed by the harness on every run):
-      F ← ⊂1 / X ← 5 / °⊙F X [2 2]      and      X ← 5 / F ← ⊂1 / °⊙F X [2 2]
-    The third line has the same span indices 4..8 in both programs; F's body [⊂] has span
-    index 2 in the first and 3 in the second; F is function 0 in both. *)
-Definition body_at (s : N) : node := NRun [NPush 1; NPrim JOIN s].
-Definition un_w1 : inv_input := ([NMod DIP [(NCall 1 S11 0 99 0 (body_at 2) 5, S11)] 6], (0, false)).
-Definition un_w2 : inv_input := ([NMod DIP [(NCall 1 S11 0 99 1 (body_at 3) 5, S11)] 6], (0, false)).
-
+(** names.  The real pair (confirmed by the harness on every run):
+      F ← ⍏ / °F [1 2]     then     G ← ⍏ / °G [1 2]
+    same content, spans, function index; the cached error says "cannot invert F because …" *)
+Definition un_n1 : inv_input := ([NCall 70 S11 0 55 1 (NPrim RISE 2) 4], (0, false)).
+Definition un_n2 : inv_input := ([NCall 71 S11 0 55 1 (NPrim RISE 2) 4], (0, false)).
 Theorem inv_cache_refuted : exists x y, inv_key x = inv_key y /\ inv_deps x <> inv_deps y.
-Proof. exists un_w1, un_w2. split; [reflexivity|]. intro H. vm_compute in H. discriminate H. Qed.
+Proof. exists un_n1, un_n2. split; [reflexivity|]. intro H. vm_compute in H. discriminate H. Qed.
 
-(** hashing every span of the input recursively does not repair it: the spans that differ
-    are in the body of the called function *)
-Theorem inv_fix1_refuted : exists x y, inv_key_fix1 x = inv_key_fix1 y /\ inv_deps x <> inv_deps y.
-Proof. exists un_w1, un_w2. split; [reflexivity|]. intro H. vm_compute in H. discriminate H. Qed.
+Theorem inv_fix_sufficient : forall (V : Type) (g : list node * (N * bool) -> V),
+  sufficient inv_key_fix (fun x => g (inv_deps x)).
+Proof. intros V g x y E. unfold inv_key_fix, inv_deps in *. rewrite E. reflexivity. Qed.
 
-(** hashing the spans of the input and of the bodies it reaches does: for every function
-    [g] of the dependencies *)
-Theorem inv_fix2_sufficient : forall (V : Type) (g : list node * (N * bool) -> V),
-  sufficient inv_key_fix2 (fun x => g (inv_deps x)).
-Proof. intros V g x y E. unfold inv_key_fix2, inv_deps in *. rewrite E. reflexivity. Qed.
-
-(** a pair that differs in a nested span of the input itself (same first span):
-      °⊙⊂ at column 3 vs the same content shifted — key equal, deps differ *)
-Definition un_w3 : inv_input := ([NMod DIP [(NPrim JOIN 4, S21)] 3], (0, false)).
-Definition un_w4 : inv_input := ([NMod DIP [(NPrim JOIN 5, S21)] 3], (0, false)).
-Theorem inv_cache_refuted_nested : inv_key un_w3 = inv_key un_w4 /\ inv_deps un_w3 <> inv_deps un_w4.
-Proof. split; [reflexivity|]. intro H. vm_compute in H. discriminate H. Qed.
-
-(** zip fast functions: span index (≡⊢ at another position) *)
-Definition zip_w1 : node := NPrim FIRST 4.
-Definition zip_w2 : node := NPrim FIRST 1.
-Theorem zip_cache_refuted_span : exists x y, zip_key x = zip_key y /\ zip_deps x <> zip_deps y.
-Proof. exists zip_w1, zip_w2. split; [reflexivity|]. intro H. vm_compute in H. discriminate H. Qed.
-
-(** zip fast functions: function index.  F ← × / ≡(/F⇌) …  then  G ← + / F ← × / ≡(/F⇌) … :
-    the cached closure calls function 0, which is G in the second assembly *)
-Definition zip_w3 : node := NRun [NPrim REVERSE 8; NMod REDUCE [(NCall 1 S21 0 77 0 (NPrim MUL 2) 10, S21)] 9].
-Definition zip_w4 : node := NRun [NPrim REVERSE 8; NMod REDUCE [(NCall 1 S21 1 77 1 (NPrim MUL 2) 10, S21)] 9].
-Theorem zip_cache_refuted_index : exists x y, zip_key x = zip_key y /\ zip_deps x <> zip_deps y.
-Proof. exists zip_w3, zip_w4. split; [reflexivity|]. intro H. vm_compute in H. discriminate H. Qed.
+(** names, fast functions.  F ← ⊏ / ≡(/F⇌) [1_2 3_9]   then   G ← ⊏ / ≡(/G⇌) [1_2 3_8]:
+    the trace of the second program's error names F *)
+Definition zip_n1 : node := NRun [NPrim REVERSE 8; NMod REDUCE [(NCall 70 S21 0 66 1 (NPrim SELECT 2) 6, S21)] 5].
+Definition zip_n2 : node := NRun [NPrim REVERSE 8; NMod REDUCE [(NCall 71 S21 0 66 1 (NPrim SELECT 2) 6, S21)] 5].
+Theorem zip_cache_refuted : exists x y, zip_key x = zip_key y /\ zip_deps x <> zip_deps y.
+Proof. exists zip_n1, zip_n2. split; [reflexivity|]. intro H. vm_compute in H. discriminate H. Qed.
 
 Theorem zip_fix_sufficient : forall (V : Type) (g : node -> V), sufficient zip_key_fix (fun x => g (zip_deps x)).
 Proof. intros V g x y E. unfold zip_key_fix, zip_deps in *. rewrite E. reflexivity. Qed.
